@@ -309,11 +309,12 @@ class C11(Sim):
     FAULT_KINDS = ["prng_handover", "forced_pivot"]
     PROBES = ["leaf_smaller_than_k", "empty_side_after_split", "all_equal_on_axis", "k>=n", "radius_zero",
               "query_on_data_point", "duplicates", "tie_at_kth", "radius_equals_data_distance",
-              "radius_hair_off_data_distance", "rebuild", "outside_query", "int_points"]
+              "radius_hair_off_data_distance", "rebuild", "outside_query", "int_points", "caller_reuses_its_array"]
     QUICK_RUNS = 2500
     THOROUGH_RUNS = 200000
     BLOCK = 20
     ASSUMPTIONS = [
+        "a tree answers for the points as they were when it was built: the caller may overwrite the array it passed afterwards (the constructor copies its input)",
         "coordinates are finite and moderate: |x| <= 1e6, data rounded to <= 3 decimals, query points to <= 7 "
         "(squared distances neither overflow nor underflow nor lose all precision); no NaN/inf",
         "n >= 1, 1 <= d <= 5, 1 <= max_leaf_size <= 12, k >= 1 (python int), r >= 0 finite (python float)",
@@ -429,7 +430,9 @@ class C11(Sim):
             others = [s for s in STRATEGIES if s not in used] or STRATEGIES
             strat = r.choice(others)
             leaf = cfg["leaf"] if r.chance(0.5) else r.randint(1, 12)
-        ev = {"c": "builder", "op": "build", "t": t, "leaf": leaf, "strategy": strat, "forced": []}
+        # 'scribble': once the tree is built, the caller re-uses the array it passed as a buffer (overwrites it in place).  The tree was
+        # built for the points as they were: its answers are still judged against those
+        ev = {"c": "builder", "op": "build", "t": t, "leaf": leaf, "strategy": strat, "forced": [], "scribble": r.chance(0.3)}
         if cfg["faults_on"] and strat != "balanced" and cfg["max_forced"] > 0 and r.chance(0.8):
             k = r.randint(1, cfg["max_forced"])
             if r.chance(0.45):  # a run of the same extreme on consecutive draws from the root: the nastiest prefix
@@ -629,6 +632,9 @@ class C11(Sim):
             # "building the tree finishes" - it raised instead
             self.exc_violation("construction-terminates", "build", out, dup, info)
         tree = out.value
+        if ev.get("scribble") and pts.size:
+            pts[:] = pts[::-1].copy() * 0.5 + 17.0
+            self.probes["caller_reuses_its_array"] += 1
         self.trees[slot] = {"tree": tree, "leaf": leaf, "strategy": strat, "dup": dup, "steps": b.steps}
         self.budget_use.append(("build", strat, b.steps, limit))
         nleaves = self._check_leaves(slot, "build")
